@@ -114,7 +114,10 @@ def strip(seq, cut):
 PRELIFE_OBS = {'add', 'ids', 'has', 'clear', 'stream', 'nodes'}
 
 
-def add_prelife(rnd, case):
+CLEAR_EDGES_OK = {'C04', 'C05', 'C08', 'C12', 'C13', 'C15'}      # oracles that take the node set from the graph itself
+
+
+def add_prelife(rnd, case, pid=None):
     """with probability 0.15: the graph lived before (same object): adds at instants the case itself does not use,
     reads of ids / presence / stream (so that anything cached is cached), then clear()"""
     if rnd.random() >= 0.15 or 'hist' not in case:
@@ -128,7 +131,10 @@ def add_prelife(rnd, case):
         t = base + rnd.randint(0, 3)
         pre.append(('add', 0, u, v, t, rnd.choice([None, None, t + 2])))
     pre.sort(key=lambda o: o[4])
-    pre += [('ids', 0), ('has', 0, 1, 2, base + 1), ('stream', 0), ('nodes', 0, None), ('clear', 0, 'clear')]
+    # clear_edges() keeps the nodes of the earlier life (as isolated nodes): only where the oracle does not derive the
+    # node set from the history
+    how = 'clear_edges' if (pid in CLEAR_EDGES_OK and rnd.random() < 0.5) else 'clear'
+    pre += [('ids', 0), ('has', 0, 1, 2, base + 1), ('stream', 0), ('nodes', 0, None), ('clear', 0, how)]
     if rnd.random() < 0.4:
         pre.append(('ids', 0))      # reading right after the clear would refresh anything cached: not always
     case = dict(case)
@@ -324,7 +330,7 @@ def run_check(mod_name, tier, seed, replay=None):
         corpus.append(json.load(open(f))['case'])
     exh = list(P.exhaustive_cases(tier))
     n_rand = P.n_random(tier)
-    rand = [add_prelife(rnd, c) for c in P.random_cases(rnd, n_rand)]
+    rand = [add_prelife(rnd, c, pid) for c in P.random_cases(rnd, n_rand)]
     cases = corpus + exh + rand
     extra_scope = False
 
@@ -390,7 +396,7 @@ def run_check(mod_name, tier, seed, replay=None):
     elif pst['broken'] or all_dis or not model_ok:
         # proof or correspondence broken: widen the search before giving up on a failing input
         if model_ok and tier == 'quick':
-            wide = list(P.exhaustive_cases('thorough')) + [add_prelife(rnd, c) for c in P.random_cases(random.Random(seed + 1), 10 * n_rand)]
+            wide = list(P.exhaustive_cases('thorough')) + [add_prelife(rnd, c, pid) for c in P.random_cases(random.Random(seed + 1), 10 * n_rand)]
             extra_scope = True
             sweep(wide)
             un_cases = [(c, unexplained(P, f, known)) for c, f in all_fail]
